@@ -14,6 +14,7 @@ import (
 	"hash/fnv"
 	"os"
 	"strings"
+	"sync/atomic"
 
 	"verif/mc"
 	az "verif/ref/aztec"
@@ -25,6 +26,8 @@ import (
 )
 
 var chk *mc.Check
+
+var readerNotes int32 // number of failing reader cases listed in the evidence notes
 
 type shape struct {
 	Compact bool
@@ -157,7 +160,7 @@ func (o outcome) describe() string {
 	case o.panicM != "":
 		return "panic: " + o.panicM
 	case o.err != nil:
-		return "error: " + clip(o.err.Error(), 120)
+		return "error: " + clip(fmt.Sprint(o.err), 120)
 	}
 	return fmt.Sprintf("text %q", clip(o.text, 60))
 }
@@ -248,7 +251,7 @@ func checkHighLevel(l *mc.Local, sh shape, tx text, pad int) bool {
 	o := libHighLevel(l, bits)
 	l.Distinct("outcomes", "hl/"+o.class(tx.Want))
 	if o.ok(tx.Want) {
-		l.Distinct("nontrivial", fmt.Sprint("hl/", tx.Name, "/", pad))
+		l.Distinct("nontrivial", fmt.Sprint("hl/", sh, "/", tx.Name, "/", pad))
 		return true
 	}
 	key := "C11/highlevel/" + o.class(tx.Want) + "/" + textKeyPart(tx)
@@ -307,6 +310,9 @@ func checkRead(l *mc.Local, sh shape, sym *az.Symbol, tx text, rot, scale, quiet
 	key := fmt.Sprintf("C11/reader/%s/scale=%d", cls, scale)
 	if !positive {
 		key = fmt.Sprintf("C11/reader/%s/quiet=%d/scale=%d", cls, quiet, scale)
+	}
+	if atomic.AddInt32(&readerNotes, 1) <= 40 {
+		chk.Note(fmt.Sprintf("%s: %v script %s scale %d quiet %d rot %d: %s", key, sh, tx.Name, scale, quiet, rot*90, o.describe()))
 	}
 	chk.Violation(key, fmt.Sprintf("AztecReader.Decode of %v (%dx%d modules) script %s rendered at scale %d, quiet zone %d modules, rotated %d deg: %s, expected %q", sh, sym.Size, sym.Size, tx.Name, scale, quiet, rot*90, o.describe(), clip(tx.Want, 60)),
 		rcase{Sub: "reader", Compact: sh.Compact, Layers: sh.Layers, Text: tx.Name, Rot: rot, Scale: scale, Quiet: quiet})
